@@ -41,8 +41,6 @@ def report(project, chk, tag: str, rule_of, out) -> int:
         res, ans = out[q]
         fi = project.func(q)
         chk.saw_function(fi, ans[0].cfg)
-        reach = max(getattr(a, "n_returns", 0) for a in ans)
-        chk.floor(f"reachable return statements analysed in {fi.short}", reach, RETURN_FLOORS[q])
         seen = {}
         for r in res:
             if r.tag != tag:
@@ -65,4 +63,9 @@ def report(project, chk, tag: str, rule_of, out) -> int:
                 chk.fail(rule, fi.short, construct, loc, msg, text=text,
                          extra={"case": r.case, "returned": show(r.ret)[:300],
                                 "facts_available": sorted(show(f)[:200] for f in r.facts.facts)[:40]})
+    if not chk.findings:
+        for q in FUNCS:
+            res, ans = out[q]
+            reach = max(getattr(a, "n_returns", 0) for a in ans)
+            chk.floor(f"reachable return statements analysed in {project.func(q).short}", reach, RETURN_FLOORS[q])
     return n
